@@ -968,3 +968,124 @@ fn c07_init_none_keeps_buffers() {
     kani::assume(k < 2048);
     clause!(buf.0[k] == before[k], "C07: assume-initialized construction writes no metadata byte");
 }
+
+// ---------------------------------------------------------------------------------------------
+// C10 / C11: completeness of the allocation search, monolithic over the configuration
+// (all inner helpers with their real bodies; only the lower allocator, the atomics' retry loops and
+// std's slice rotation are by contract).
+// ---------------------------------------------------------------------------------------------
+fn check_c10<const NC: usize>(targeted: bool) {
+    kpolicy::init(true);
+    let mut c = any_cfg::<NC>(false);
+    let mut i = 0;
+    while i < NC {
+        c.slots[i] = 0; // drained: no slot holds a tree
+        i += 1;
+    }
+    kani::assume(inv(&c.words, &c.slots, &c.lf, &c.offline, c.last_slots));
+    let class: u8 = kani::any();
+    kani::assume((class as usize) < NC);
+    let local = if kani::any() { Some(0) } else { None };
+    if targeted {
+        let order: usize = kani::any();
+        kani::assume(order <= TREE_ORDER);
+        let n = 1usize << order;
+        let frame: usize = kani::any();
+        kani::assume(frame < L2T * TREE_FRAMES && frame % n == 0 && frame + n <= L2T * TREE_FRAMES);
+        let t = frame / TREE_FRAMES;
+        let tgt_free: bool = kani::any();
+        kani::assume(!tgt_free || c.lf[t] >= n);
+        unsafe {
+            ghost::TGT_FRAME = frame;
+            ghost::TGT_ORDER = order;
+            ghost::TGT_FREE = tgt_free;
+        }
+        let (r, _, _, _) = with_alloc(&c, |a| a.get(Some(FrameId(frame)), Request::new(order, Class(class), local)));
+        clause!(r.is_ok() == (tgt_free && !c.offline[t]), "C10: after a drain a targeted allocation succeeds iff the whole block is free and outside offline trees");
+    } else {
+        let (r, _, _, _) = with_alloc(&c, |a| a.get(None, Request::new(0, Class(class), local)));
+        if r.is_err() {
+            clause!(sum_lf(&c.lf, &c.offline) == 0, "C10: after a drain a base-order allocation fails only if no frame outside offline trees is free");
+        }
+    }
+}
+fn check_c11() {
+    kpolicy::init(false);
+    let mut c = any_cfg::<1>(false);
+    c.offline = [false; L2T];
+    kani::assume(inv(&c.words, &c.slots, &c.lf, &c.offline, c.last_slots));
+    let (r, _, _, _) = with_alloc(&c, |a| a.get(None, Request::new(0, Class(0), Some(0))));
+    if r.is_err() {
+        clause!(sum_lf(&c.lf, &c.offline) == 0, "C11: a single-slot allocator reports out-of-memory only if no frame is free");
+    }
+}
+macro_rules! mono_harness {
+    ($name:ident, $body:expr) => {
+        #[kani::proof]
+        #[kani::unwind(10)]
+        #[kani::solver(kissat)]
+        #[kani::stub(crate::atomic::Atom::try_update, crate::atomic::Atom::try_update_seq)]
+        #[kani::stub(crate::atomic::Atom::update, crate::atomic::Atom::update_seq)]
+        #[kani::stub(crate::lower::Lower::get, crate::lower::Lower::get_contract)]
+        #[kani::stub(<[core::option::Option<crate::util::OrdBy<(Policy, bool), TreeId>>]>::rotate_right, crate::util::verif_contracts::rotate_right_model)]
+        #[kani::stub(<[core::option::Option<crate::util::OrdBy<(Policy, bool), TreeId>>]>::rotate_left, crate::util::verif_contracts::rotate_left_model)]
+        fn $name() {
+            $body
+        }
+    };
+}
+mono_harness!(c10_drained_base_order_2c, check_c10::<2>(false));
+mono_harness!(c10_drained_targeted_2c, check_c10::<2>(true));
+mono_harness!(c11_single_slot_base_order, check_c11());
+
+/// Construction (FreeAll / AllocAll / Recover) establishes invariant I with no reservation: every tree
+/// counter equals the frames free in the lower allocator (fast == exact), default class, unreserved.
+#[kani::proof]
+#[kani::unwind(10)]
+#[kani::stub(crate::lower::Lower::new, crate::lower::Lower::new_contract)]
+#[kani::stub(crate::lower::Lower::stats_at, crate::lower::Lower::stats_at_contract)]
+#[kani::stub(crate::lower::Lower::stats, crate::lower::Lower::stats_contract)]
+fn l2_new_establishes_invariant() {
+    let classing = Classing::new(&[(Class(0), 1), (Class(1), 1)], Class(1), simple_policy);
+    let frames: usize = kani::any();
+    kani::assume(frames > TREE_FRAMES && frames <= L2T * TREE_FRAMES); // two trees, last one possibly partial
+    let m = LLFree::metadata_size(&classing, frames);
+    let mut buf = MetaBuf([0; 2048]); // volatile buffers are handed over zeroed (MetaData::alloc)
+    let tree_bytes: [u8; 64] = kani::any(); // ... the tree array is overwritten by construction anyway
+    let base = buf.0.as_mut_ptr();
+    let o2 = m.local.next_multiple_of(64);
+    let o3 = o2 + m.trees.next_multiple_of(64);
+    kani::assume(o3 + m.lower <= 2048 && m.trees <= 64);
+    unsafe { core::ptr::copy_nonoverlapping(tree_bytes.as_ptr(), base.add(o2), 64) };
+    let lf: [usize; L2T] = kani::any();
+    kani::assume(lf[0] <= TREE_FRAMES && lf[1] <= frames - TREE_FRAMES);
+    unsafe {
+        ghost::LF[0] = lf[0];
+        ghost::LF[1] = lf[1];
+        OFFLINE = [false; L2T];
+    }
+    let k: u8 = kani::any();
+    kani::assume(k < 3);
+    let init = match k {
+        0 => Init::FreeAll,
+        1 => Init::AllocAll,
+        _ => Init::Recover,
+    };
+    let meta = unsafe {
+        MetaData {
+            local: core::slice::from_raw_parts_mut(base, m.local),
+            trees: core::slice::from_raw_parts_mut(base.add(o2), m.trees),
+            lower: core::slice::from_raw_parts_mut(base.add(o3), m.lower),
+        }
+    };
+    let a = LLFree::new(frames, init, &classing, meta).unwrap();
+    kpolicy::init(false);
+    clause!(inv_rt(&a), "C05/C06: construction establishes the allocator invariant I");
+    let mut t = 0;
+    while t < L2T {
+        let (free, reserved, class) = tree_word(&a.trees, t);
+        clause!(free == lf[t] && !reserved && class == 1, "C05/C06: every tree counter equals the frames free in the lower allocator (fast == exact), default class, unreserved");
+        t += 1;
+    }
+    clause!(a.tree_stats().free_frames == a.stats().free_frames, "C05: the fresh / recovered allocator's fast and exact counts agree");
+}
